@@ -173,7 +173,7 @@ class Scenario(Session):
             rcs = [self.rng.choice(SUBACK_RCS) for _ in d["topics"]]
             rcs = self.maybe_bad_verdicts(rcs, SUBACK_RCS)
             if any(r < 0x80 for r in rcs) and len(rcs) == len(d["topics"]): self.sub_ok = True
-            self.q(ref.e_suback("suback", d["pid"], rcs, self.ack_props()))
+            self.q(ref.e_suback("suback", d["pid"], rcs, self.ack_props()), hold=self.profile == "session" and self.rng.random() < 0.4)
         elif t == "unsubscribe":
             rcs = self.maybe_bad_verdicts([self.rng.choice(UNSUBACK_RCS) for _ in d["topics"]], UNSUBACK_RCS)
             self.q(ref.e_suback("unsuback", d["pid"], rcs, self.ack_props()))
@@ -240,11 +240,12 @@ class Scenario(Session):
         rng = self.rng
         acts = []
         if self.running:
-            acts += [("pub", 22), ("sub", 4), ("unsub", 3), ("sig", 3), ("advance", 8)]
+            if self.profile == "session": acts += [("pub", 8), ("sub", 16), ("unsub", 2), ("sig", 1), ("advance", 4)]
+            else: acts += [("pub", 22), ("sub", 4), ("unsub", 3), ("sig", 3), ("advance", 8)]
             if len(self.recv_ops) < 4: acts.append(("recv", 5))
             if not self.connected: acts.append(("connect", 25))
             else:
-                acts.append(("drop", 5))
+                acts.append(("drop", 12 if self.profile == "session" else 5))
                 if self.sub_ok or rng.random() < 0.1: acts.append(("bpub", 6))
             if self.sid in self.write_pending and self.connected: acts.append(("wok", 30))
             if self.sid in self.read_pending and self.connected and self.broker_out: acts.append(("rx", 35))
@@ -270,7 +271,9 @@ class Scenario(Session):
                 for w in reversed(self.wlog):
                     if w["result"] is None and w["pk"] == pk: w["delivered"] = k; break
                 for b in pk[:k]: self.broker_receive(b)
-            self.reconnect(rng.randint(0, 1) if rng.random() < 0.6 else 1, self.new_caps()); self.count("drop")
+            sp = rng.randint(0, 1) if rng.random() < 0.6 else 1
+            if self.profile == "session": sp = 0 if rng.random() < 0.7 else 1
+            self.reconnect(sp, self.new_caps()); self.count("drop")
         elif a == "bpub": self.broker_publish()
         elif a == "wok": self.wdone("ok"); self.count("wok")
         elif a == "rx":
